@@ -138,6 +138,7 @@ fn r0(src: &str, f: &syn::File, _c: &Ctx, e: &mut Vec<Edit>) {
 
 // ---------------------------------------------------------------------------------------------- R8
 struct R8<'a> {
+    src: &'a str,
     edits: &'a mut Vec<Edit>,
     ctx: &'a Ctx,
     active: bool,
@@ -176,6 +177,16 @@ impl<'a, 'ast> Visit<'ast> for R8<'a> {
         }
         visit::visit_type_reference(self, t);
     }
+    fn visit_macro(&mut self, m: &'ast syn::Macro) {
+        // `vec![Zero::zero()]`: the macro body is not parsed by syn, patch its text
+        if self.active {
+            let (a, b) = nr(m);
+            let t = &self.src[a..b];
+            if t.contains("Zero::zero()") {
+                self.edits.push(Edit { start: a, end: b, text: t.replace("Zero::zero()", "0.0"), rule: "R8" });
+            }
+        }
+    }
     fn visit_expr_call(&mut self, c: &'ast syn::ExprCall) {
         if self.active {
             if let Expr::Path(p) = &*c.func {
@@ -191,7 +202,7 @@ impl<'a, 'ast> Visit<'ast> for R8<'a> {
     }
 }
 fn r8(_src: &str, f: &syn::File, c: &Ctx, e: &mut Vec<Edit>) {
-    R8 { edits: e, ctx: c, active: false }.visit_file(f);
+    R8 { src: _src, edits: e, ctx: c, active: false }.visit_file(f);
 }
 
 // ---------------------------------------------------------------------------------------------- R6
